@@ -12,6 +12,11 @@ from ..specs import jv, py
 STR_POOL = ['', 'a', 'Max', 'é', 'ж', '中', '\U0001f600', 'a"b', 'a\\b', 'a\nb', '\t', '\x01', '\x7f', 'py', 'a b',
             '/', '<tag>', 'null', '0', ' ', '\x1f', '퟿', '￿']
 KEYS = ['a', 'b', 'name', 'role', 'id', 'ж', 'Z', 'aa', 'a b', '']
+# jsonpickle.tags.RESERVED (4.1.2): string keys like any other as far as the property goes
+RESERVED = ['py/bytes', 'py/function', 'py/id', 'py/initargs', 'py/iterator', 'py/mod', 'py/newargs', 'py/newargsex',
+            'py/newobj', 'py/object', 'py/property', 'py/reduce', 'py/ref', 'py/repr', 'py/seq', 'py/set', 'py/state',
+            'py/tuple', 'py/type']
+NEAR_RESERVED = ['py/', 'py', 'py/x', 'py/ids', 'Py/id', 'json://x']
 
 
 def jvalue(rng, depth):
@@ -34,6 +39,8 @@ def jvalue(rng, depth):
     d = {}
     for k in rng.sample(KEYS, rng.randint(0, 4)):
         d[k] = jvalue(rng, depth - 1)
+    if rng.random() < 0.06:
+        d[rng.choice(RESERVED + NEAR_RESERVED)] = jvalue(rng, min(depth - 1, 1))
     return d
 
 
@@ -150,7 +157,19 @@ class PairStream(Stream):
 
     def corpus(self):
         d = {'D': [['a', [1]]]}
-        return [
+
+        def q(subject):
+            return {'resource': 'r', 'action': 'x', 'subject': jv(subject), 'context': None}
+        reserved = [
+            # entries under a key jsonpickle reserves: content differs, vakt compares (known finding)
+            {'a': q({'py/id': 1, 'z': 2}), 'b': q({'py/id': 2, 'z': 2})},
+            {'a': q({'py/tuple': [1, 2]}), 'b': q({})},
+            {'a': q({'role': {'py/object': 'x'}}), 'b': q({'role': {}})},
+            # near misses are ordinary keys
+            {'a': q({'py/ids': 1}), 'b': q({'py/ids': 2})},
+            {'a': q({'py/': 1}), 'b': q({'py/': 1})},
+        ]
+        return reserved + [
             {'a': {'resource': d, 'action': 'x', 'subject': d, 'context': None},
              'b': {'resource': d, 'action': 'x', 'subject': d, 'context': None}, 'alias_a': True, 'alias_b': False},
             {'a': {'resource': {'D': [['a', 1], ['b', {'D': [['x', 1], ['y', 2]]}]]}, 'action': '', 'subject': None,
@@ -217,6 +236,17 @@ class PairStream(Stream):
                                                              'equal' if eq == 'T' else 'unequal')
         if eq == 'T' and ha != hb:
             return 'equal inquiries have different hashes'
+        # a JSON round trip gives back an equal inquiry
+        from vakt.guard import Inquiry
+        for side in ('a', 'b'):
+            x = build(c[side], False)
+            try:
+                y = Inquiry.from_json(x.to_json())
+                ok = (y == x) and canonical_content_of(y) == canonical_content(c[side])
+            except Exception as e:  # noqa
+                return 'JSON round trip of inquiry %s raised %s' % (side, type(e).__name__)
+            if not ok:
+                return 'inquiry %s does not survive a JSON round trip as an equal inquiry with the same content' % side
         if getattr(self, '_cases', None):
             others = self._other_processes().get(core.digest(c))
             if others:
@@ -259,6 +289,16 @@ class PairStream(Stream):
                     break
 
     def classify(self, c, io, mo):
+        def has_reserved(v):
+            if isinstance(v, list):
+                return any(has_reserved(x) for x in v)
+            if isinstance(v, dict):
+                if 'D' in v:
+                    return any(k in RESERVED or has_reserved(x) for k, x in v['D'])
+                return any(has_reserved(x) for x in v.values())
+            return False
+        if any(has_reserved(c[s][f]) for s in ('a', 'b') for f in ('resource', 'action', 'subject', 'context')):
+            return 'jsonpickle-reserved-keys'
         return None
 
     def describe(self, c):
@@ -288,6 +328,11 @@ def canonical_content(q):
     return tuple(out)
 
 
+def canonical_content_of(inq):
+    """canonical_content of a real Inquiry object"""
+    return canonical_content({f: jv(getattr(inq, f)) for f in ('resource', 'action', 'subject', 'context')})
+
+
 TRUSTED = [
     'Coq 8.16.1 kernel + vm_compute (no native_compute)',
     'Model/Inquiry.v: the canonical JSON text (sorted keys, json.dumps escaping with ensure_ascii, py/tuple '
@@ -296,7 +341,7 @@ TRUSTED = [
     'jsonpickle / json are exercised, not modelled; three further interpreter processes with different '
     'PYTHONHASHSEED recompute every pair',
 ]
-ASSUME = ['values are JSON-like (string-keyed dictionaries, no callables, no dictionary keys reserved by jsonpickle); '
+ASSUME = ['values are JSON-like (string-keyed dictionaries, no callables); '
           'floats are dyadic rationals whose repr is their exact decimal expansion',
           'injectivity of the canonical text (different content => different text) is validated by the generated '
           'one-point mutations, not proved (C13 partial)']
